@@ -312,3 +312,125 @@ pub fn genuine(tpl: &str) -> Option<Vec<u8>> {
         return None;
     })
 }
+
+// ------------------------------------------------------------------------------------ text
+
+const FP: &str = "sha-256 9F:5D:2B:A1:00:11:22:33:44:55:66:77:88:99:AA:BB:CC:DD:EE:FF:01:23:45:67:89:AB:CD:EF:10:32:54:76";
+
+fn ice_block() -> String {
+    format!(
+        "a=candidate:1 1 udp 2122260223 192.0.2.1 50000 typ host\r\n\
+         a=ice-ufrag:abcd\r\n\
+         a=ice-pwd:0123456789abcdef01234567\r\n\
+         a=fingerprint:{FP}\r\n\
+         a=setup:actpass\r\n"
+    )
+}
+
+/// A browser-style offer: audio + video (H264 + RTX) + data channel, bundled.
+pub fn sdp_webrtc() -> String {
+    let ice = ice_block();
+    format!(
+        "v=0\r\n\
+         o=- 4611731400430051336 2 IN IP4 127.0.0.1\r\n\
+         s=-\r\n\
+         t=0 0\r\n\
+         a=group:BUNDLE 0 1 2\r\n\
+         a=msid-semantic: WMS\r\n\
+         m=audio 9 UDP/TLS/RTP/SAVPF 111 0\r\n\
+         c=IN IP4 0.0.0.0\r\n\
+         a=rtcp:9 IN IP4 0.0.0.0\r\n\
+         {ice}\
+         a=mid:0\r\n\
+         a=extmap:1 urn:ietf:params:rtp-hdrext:sdes:mid\r\n\
+         a=sendrecv\r\n\
+         a=rtcp-mux\r\n\
+         a=rtpmap:111 opus/48000/2\r\n\
+         a=rtcp-fb:111 transport-cc\r\n\
+         a=fmtp:111 minptime=10;useinbandfec=1\r\n\
+         a=rtpmap:0 PCMU/8000\r\n\
+         a=ssrc:1234567 cname:abc\r\n\
+         m=video 9 UDP/TLS/RTP/SAVPF 96 97\r\n\
+         c=IN IP4 0.0.0.0\r\n\
+         {ice}\
+         a=mid:1\r\n\
+         a=extmap:1 urn:ietf:params:rtp-hdrext:sdes:mid\r\n\
+         a=sendrecv\r\n\
+         a=rtcp-mux\r\n\
+         a=rtpmap:96 H264/90000\r\n\
+         a=rtcp-fb:96 nack\r\n\
+         a=rtcp-fb:96 nack pli\r\n\
+         a=fmtp:96 level-asymmetry-allowed=1;packetization-mode=1;profile-level-id=42e01f\r\n\
+         a=rtpmap:97 rtx/90000\r\n\
+         a=fmtp:97 apt=96\r\n\
+         a=ssrc:7654321 cname:abc\r\n\
+         m=application 9 UDP/DTLS/SCTP webrtc-datachannel\r\n\
+         c=IN IP4 0.0.0.0\r\n\
+         {ice}\
+         a=mid:2\r\n\
+         a=sctp-port:5000\r\n\
+         a=max-message-size:262144\r\n"
+    )
+}
+
+/// A simulcast video offer (rid / simulcast attributes).
+pub fn sdp_simulcast() -> String {
+    let ice = ice_block();
+    format!(
+        "v=0\r\n\
+         o=- 4611731400430051337 2 IN IP4 127.0.0.1\r\n\
+         s=-\r\n\
+         t=0 0\r\n\
+         a=group:BUNDLE 0\r\n\
+         m=video 9 UDP/TLS/RTP/SAVPF 96 97\r\n\
+         c=IN IP4 0.0.0.0\r\n\
+         {ice}\
+         a=mid:0\r\n\
+         a=extmap:1 urn:ietf:params:rtp-hdrext:sdes:mid\r\n\
+         a=extmap:4 urn:ietf:params:rtp-hdrext:sdes:rtp-stream-id\r\n\
+         a=sendrecv\r\n\
+         a=rtcp-mux\r\n\
+         a=rtpmap:96 VP8/90000\r\n\
+         a=rtcp-fb:96 nack pli\r\n\
+         a=rtpmap:97 rtx/90000\r\n\
+         a=fmtp:97 apt=96\r\n\
+         a=ssrc:7654321 cname:abc\r\n\
+         a=rid:hi send pt=96;max-width=1280\r\n\
+         a=rid:lo send pt=96;max-width=320\r\n\
+         a=simulcast:send hi;lo\r\n"
+    )
+}
+
+/// An SDES (RTP/SAVP) offer as a SIP endpoint sends it.
+pub fn sdp_sdes() -> String {
+    "v=0\r\n\
+     o=- 20518 0 IN IP4 203.0.113.1\r\n\
+     s=call\r\n\
+     t=0 0\r\n\
+     m=audio 40000 RTP/SAVP 0 8 101\r\n\
+     c=IN IP4 203.0.113.1\r\n\
+     a=mid:0\r\n\
+     a=rtpmap:0 PCMU/8000\r\n\
+     a=rtpmap:8 PCMA/8000\r\n\
+     a=rtpmap:101 telephone-event/8000\r\n\
+     a=fmtp:101 0-16\r\n\
+     a=ptime:20\r\n\
+     a=sendrecv\r\n\
+     a=crypto:1 AES_CM_128_HMAC_SHA1_80 inline:PS1uQCVeeCFCanVmcjkpPywjNWhcYD0mXXtxaVBR|2^20|1:32\r\n\
+     a=crypto:2 AEAD_AES_128_GCM inline:PS1uQCVeeCFCanVmcjkpPywjNWhcYD0mXXtx\r\n"
+        .to_string()
+}
+
+pub fn candidate_line() -> String {
+    "candidate:2 1 tcp 1518280447 192.0.2.1 9 typ host tcptype passive".to_string()
+}
+
+pub fn text(tpl: &str) -> Option<String> {
+    Some(match tpl {
+        "sdp.webrtc" => sdp_webrtc(),
+        "sdp.simulcast" => sdp_simulcast(),
+        "sdp.sdes" => sdp_sdes(),
+        "sdp.candidate" => candidate_line(),
+        _ => return None,
+    })
+}
